@@ -67,6 +67,22 @@ func progress() {
 
 func atoi(s string) int { n, _ := strconv.Atoi(s); return n }
 
+// explore runs every schedule, or exactly one when VH_PREFIX=w0,w1,... (replay) is set.
+func explore(names []string, mk func() (map[string]func(), func() string), maxRuns int,
+	visit func(steps []sched.Step, obs string, err error) bool) (int, bool) {
+	if pre := os.Getenv("VH_PREFIX"); pre != "" {
+		bodies, observe := mk()
+		steps, err := sched.Exec(names, bodies, strings.Split(pre, ","), 10000)
+		obs := ""
+		if err == nil {
+			obs = observe()
+		}
+		visit(steps, obs, err)
+		return 1, false
+	}
+	return sched.Explore(names, mk, 10000, maxRuns, visit)
+}
+
 type schedOut struct {
 	Steps []sched.Step `json:"steps"`
 	Obs   string       `json:"obs"`
@@ -90,7 +106,7 @@ func statsSched(args []string) {
 	w := bufio.NewWriter(os.Stdout)
 	defer w.Flush()
 	enc := json.NewEncoder(w)
-	runs, complete := sched.Explore(names, func() (map[string]func(), func() string) {
+	runs, complete := explore(names, func() (map[string]func(), func() string) {
 		st := &api.AppStats{}
 		var dumped []uint64
 		bodies := map[string]func(){}
@@ -117,7 +133,7 @@ func statsSched(args []string) {
 			}
 			return fmt.Sprintf("dumps=%s residue=%d", strings.Join(parts, ","), st.MatchedPairs)
 		}
-	}, 10000, maxRuns, func(steps []sched.Step, obs string, err error) bool {
+	}, maxRuns, func(steps []sched.Step, obs string, err error) bool {
 		o := schedOut{Steps: steps, Obs: obs}
 		if err != nil {
 			o.Err = err.Error()
@@ -179,7 +195,7 @@ func emitSched(args []string) {
 	w := bufio.NewWriter(os.Stdout)
 	defer w.Flush()
 	enc := json.NewEncoder(w)
-	runs, complete := sched.Explore(names, func() (map[string]func(), func() string) {
+	runs, complete := explore(names, func() (map[string]func(), func() string) {
 		stream := &mock.Stream{PcapId: "s"}
 		stats := &api.AppStats{}
 		em, drain := mock.NewEmitting(stream, stats, nt*per+1)
@@ -203,7 +219,7 @@ func emitSched(args []string) {
 			}
 			return fmt.Sprintf("n=%d idx=%s matched=%d count=%d", len(items), strings.Join(idx, ","), stats.MatchedPairs, stream.GetIndex())
 		}
-	}, 10000, maxRuns, func(steps []sched.Step, obs string, err error) bool {
+	}, maxRuns, func(steps []sched.Step, obs string, err error) bool {
 		o := schedOut{Steps: steps, Obs: obs}
 		if err != nil {
 			o.Err = err.Error()
